@@ -11,15 +11,15 @@ RULE = ('cases = %d random well-typed expression trees (depth up to 4: + - * / %
         'arguments and compile-time constants 0 1 2 8 -4 3UL 16UL 0UL -1 64UL on either side), each compiled with the expression templates, x every assignment target a b c d (so the '
         'target occurs inside the tree), compound assignment op= for all eight operators, construction of a new object x values 0, +-1, LONG_MIN/MAX, 2^64+-1, multi-limb, equal '
         'objects; comparison operators / cmp / sgn against objects, long, unsigned long, double (half-integers too); string constructors, set_str, get_str in bases 2..62 and -2..-36, '
-        'get_si/get_ui, fits_*; operator<< under all ios flag combinations (dec/hex/oct, showbase, showpos, left/internal/right, uppercase, width) and operator>>; '
+        'get_si/get_ui, fits_*; 90 mpq_class trees (+ - * / << >> unary - abs, built-ins incl. half-integral doubles, all targets, compound assignment) on canonical fractions with one- and multi-limb parts; operator<< under all ios flag combinations (dec/hex/oct, showbase, showpos, left/internal/right, uppercase, width) and operator>>; '
         'non-trivial = distinct case line' % NTREES)
 EXPLANATION = ('the C++ interface built from /repo (--enable-cxx) vs extracted Coq models (CxxDefs.v: value of an expression = every sub-expression evaluated with the C function; the '
                'evaluation strategy of the expression templates with its temporaries and alias tests; PrintfDefs.v for operator<<); Properties_C20.v proves that the strategy leaves '
                'in ANY destination, also one occurring in the tree, exactly that value and changes nothing else, for every tree, carrier and operator table, and that op= is the '
                'expanded form')
 ASSUMPTIONS = ['the strategy model transcribes the eval members of __gmp_expr in mpirxx.h by hand; which template specialisation the compiler selects for a given tree is tied by '
-               'execution of the generated trees only', 'mpq_class and mpf_class expressions share the proved strategy (the theorem is carrier-independent) but only mpz_class trees are '
-               'executed; mpf_class precision rules of temporaries are not modelled', 'the C++ harness is compiled with the host g++ and libstdc++']
+               'execution of the generated trees only', 'mpz_class and mpq_class trees are executed; mpf_class expressions share the proved strategy (the theorem is carrier-independent) but are '
+               'not executed: the precision of their temporaries is not modelled', 'the C++ harness is compiled with the host g++ and libstdc++']
 TIMEOUT = 1500
 
 def nontrivial(line, tag):
@@ -48,12 +48,31 @@ def trees(seed):
         ts.append(t); cops.append(rng.randrange(8))
     return ts, cops
 
+NQTREES = 90
+def qtrees(seed):
+    rng = random.Random('C20-qtrees-%s' % seed)
+    ts = []; cops = []
+    V = lambda i: cxxgen.T('var', i); Bt = lambda k: cxxgen.T('blt', k); Bi = lambda op, a, b: cxxgen.T('bin', op, a, b); U = lambda op, e: cxxgen.T('un', op, e)
+    fixed = [Bi(1, V(0), Bi(2, V(1), V(2))), Bi(1, Bi(2, V(1), V(2)), V(0)), Bi(0, Bi(2, V(0), V(1)), Bi(3, V(0), V(2))), Bi(3, V(1), Bi(0, V(0), Bi(2, V(2), V(0)))),
+             Bi(3, Bt(0), V(0)), Bi(3, V(0), Bt(0)), Bi(3, Bt(1), V(0)), Bi(3, V(0), Bt(2)), Bi(3, Bt(2), V(0)), Bi(1, Bt(0), V(0)), Bi(2, V(0), Bt(6)), Bi(2, V(0), Bt(7)),
+             Bi(3, V(0), Bt(6)), Bi(3, V(0), Bt(7)), Bi(2, V(0), Bt(3)), Bi(0, V(0), Bt(2)), Bi(10, V(0), Bt(1)), Bi(11, V(0), Bt(1)), U(0, Bi(1, V(0), V(1))), U(2, Bi(1, V(0), V(1))),
+             Bi(2, Bi(0, V(1), Bi(2, V(2), V(0))), Bi(1, V(0), V(1)))]
+    for t in fixed:
+        ts.append(t); cops.append(rng.randrange(4))
+    while len(ts) < NQTREES:
+        t = cxxgen.genq(rng, rng.choice([1, 2, 2, 3, 3]))
+        if t.kind == 'var' or cxxgen.size(t) > 30: continue
+        ts.append(t); cops.append(rng.randrange(4))
+    return ts, cops
+
 def build_cxx(ctx):
     """libmpir + libmpirxx built from /repo with --enable-cxx, the generated expression functions and the C++ driver; cached."""
     ts, cops = trees(0)
+    qts, qcops = qtrees(0)
     src = cxxgen.source(ts, cops)
+    qsrc = cxxgen.source_q(qts, qcops)
     main = open(os.path.join(vlib.ROOT, 'harness', 'cxx', 'xdrv_main.cc')).read()
-    key = hashlib.sha256((vlib.tree_hash() + src + main).encode()).hexdigest()[:16]
+    key = hashlib.sha256((vlib.tree_hash() + src + qsrc + main).encode()).hexdigest()[:16]
     d = os.path.join(vlib.CACHE, 'cxx-' + key)
     if os.path.exists(os.path.join(d, 'ok')):
         return d
@@ -77,8 +96,13 @@ def build_cxx(ctx):
             for f in glob.glob(os.path.join(scratch, '*.h')): shutil.copy(f, os.path.join(d, 'include'))
             for f in ('libmpir.a', 'libmpirxx.a'): shutil.copy(os.path.join(scratch, '.libs', f), d)
             open(os.path.join(d, 'xdrv_gen.cc'), 'w').write(src)
+            open(os.path.join(d, 'xdrv_genq.cc'), 'w').write(qsrc)
             # the expression functions are split over several translation units to compile in parallel
-            vlib.sh(['g++', '-O1', '-w', '-I' + os.path.join(d, 'include'), os.path.join(d, 'xdrv_gen.cc'), os.path.join(vlib.ROOT, 'harness', 'cxx', 'xdrv_main.cc'),
+            from concurrent.futures import ThreadPoolExecutor
+            units = [os.path.join(d, 'xdrv_gen.cc'), os.path.join(d, 'xdrv_genq.cc'), os.path.join(vlib.ROOT, 'harness', 'cxx', 'xdrv_main.cc')]
+            with ThreadPoolExecutor(3) as ex:
+                list(ex.map(lambda u: vlib.sh(['g++', '-O1', '-w', '-c', '-I' + os.path.join(d, 'include'), u, '-o', u[:-3].replace(os.path.join(vlib.ROOT, 'harness', 'cxx'), d) + '.o'], timeout=2400), units))
+            vlib.sh(['g++', os.path.join(d, 'xdrv_gen.o'), os.path.join(d, 'xdrv_genq.o'), os.path.join(d, 'xdrv_main.o'),
                      os.path.join(d, 'libmpirxx.a'), os.path.join(d, 'libmpir.a'), '-o', os.path.join(d, 'xdrv')], timeout=2400)
         finally:
             shutil.rmtree(scratch, ignore_errors=True)
@@ -135,6 +159,31 @@ def cases(ctx, tier):
                     try: cxxgen.evaluate(t, env, blt)
                     except (cxxgen.DivZero, ValueError, OverflowError): continue
                     out.append(('cxx %x %x %s %s %s %s %s %x %s %x %s' % (i, dest, hx(env[0]), hx(env[1]), hx(env[2]), hx(env[3]), hx(l), u, hx(xh), cops[i], code), 'tree-boundary-values'))
+    # mpq_class trees
+    from fractions import Fraction
+    qts, qcops = qtrees(0)
+    def qval():
+        n = rng.choice([0, 1, -1, 2, -3, 7, (1 << 64) - 1, -(1 << 63), 10 ** 20 + 1, rng.randrange(-50, 50), signed_value(rng, 2)])
+        dd = rng.choice([1, 1, 2, 3, 5, 8, (1 << 64) + 1, 1 << 64, abs(signed_value(rng, 2)) or 1])
+        f = Fraction(n, dd)
+        return f
+    for i, t in enumerate(qts):
+        code = ' '.join(hx(c) for c in cxxgen.code(t))
+        n = 0; tries = 0; want = (10 if quick else 60)
+        while n < want and tries < want * 6:
+            tries += 1
+            env = [qval() for _ in range(4)]
+            if rng.random() < 0.2: env[1] = env[0]
+            l = rng.choice(LS); u = rng.choice([0, 1, 2, 3, 5, 63, 64, 65, 200]); xh = rng.choice([0, 2, -2, 3, -3, 14, -15, 5, 2 * (1 << 40) + 1])
+            blt = [Fraction(l), Fraction(u), Fraction(xh, 2)] + [Fraction(cxxgen.CONST_VALUE[k]) for k in range(3, 13)]
+            dest = rng.choice([0, 1, 2, 3, 0, 4, 5, 6, 7, 8])
+            try:
+                if 4 <= dest < 8: cxxgen.evaluate_q(cxxgen.T('bin', qcops[i], cxxgen.T('var', dest - 4), t), env, blt)
+                else: cxxgen.evaluate_q(t, env, blt)
+            except (cxxgen.DivZero, ZeroDivisionError, OverflowError, ValueError):
+                continue
+            out.append(('cxxq %x %x %s %s %x %s %x %s' % (i, dest, ' '.join('%s %s' % (hx(f.numerator), hx(f.denominator)) for f in env), hx(l), u, hx(xh), qcops[i], code), 'qtree'))
+            n += 1
     for _ in range(300 if quick else 3000):
         a = val(rng); b = rng.choice([a, a, val(rng), a + 1, a - 1, -a])
         out.append(('cxx_cmp %s %s %s %x %s' % (hx(a), hx(b), hx(rng.choice(LS + [a if -(1 << 63) <= a < (1 << 63) else 0])), rng.choice(US + [a if 0 <= a < (1 << 64) else 0]),
